@@ -478,6 +478,9 @@ func feeBases(p *Prog, fn *ssa.Function, isMod func(ssa.Value) bool) []string {
 		}
 		amts, _ := p.coinParts(be.Coins)
 		for _, a := range amts {
+			if av := coinAmountDef(a); av != nil {
+				a = av
+			}
 			if op, recv, _, ok := addSubOf(a); ok && op == "Sub" {
 				out = append(out, p.ExprKey(recv))
 			}
